@@ -88,6 +88,14 @@ def census(f):
             if q is None:
                 continue
             from .ops import _closure_defs
+            # projection already applied to the element before the closure sees it,
+            # e.g. `queue.iter_mut().find(..).map(|e| &mut e.state).map(|state| *state = ..)`
+            pre = []
+            for alt0 in phi_alts(t0):
+                r0, n0 = chain(alt0, extra=ELEM)
+                if q in n0:
+                    pre = [n for n in n0[n0.index(q) + 1:] if not n.startswith("@") and n not in ("0", "#")]
+                    break
             for a in c.args[1:]:
                 for d in _closure_defs(b.operand_term(a)):
                     cb = f.bodies.get(d)
@@ -99,7 +107,7 @@ def census(f):
                         if bb not in cb.reachable:
                             continue
                         root, names = chain(cb.place_term(dst), extra=ELEM)
-                        rest = [n for n in names if not n.startswith("@") and n not in ("0", "#")]
+                        rest = pre + [n for n in names if not n.startswith("@") and n not in ("0", "#")]
                         if root == ("param", pname) and rest:
                             out[q]["elem_stores"].append((b, c.bb, rest[-1], cb.rvalue_term(rv), s2["span"]))
                             out[q]["closure_sites"][(b.name, c.bb, rest[-1])] = (cb, bb, every)
@@ -113,7 +121,7 @@ def census(f):
                                 mut = True
                             x = x[1]
                         root, names = chain(x, extra=ELEM)
-                        rest = [n for n in names if not n.startswith("@") and n not in ("0", "#")]
+                        rest = pre + [n for n in names if not n.startswith("@") and n not in ("0", "#")]
                         if mut and root == ("param", pname) and rest:
                             val = ("call", c2.bb, c2.key, [cb.operand_term(a2) for a2 in c2.args], c2.path)
                             out[q]["elem_stores"].append((b, c.bb, rest[-1], val, c2.span))
